@@ -297,6 +297,45 @@ cJSON_bool cJSON_InsertItemInArray(cJSON *array, int which, cJSON *newitem)
     return 1;
 }
 /* SHP1: tail link not restored when the last of exactly two elements is removed */
+/* TAB24: the depth test of a duplicator judges the node itself and refuses the last permitted level */
+#define FX_LIMIT 10000
+cJSON *bad_TAB24_dup(const cJSON *item, size_t depth, cJSON_bool recurse)
+{
+    cJSON *copy = NULL; const cJSON *child = NULL; cJSON *tail = NULL;
+    if ((item == NULL) || (depth >= FX_LIMIT)) { return NULL; }
+    copy = cJSON_New_Item(&global_hooks);
+    if (copy == NULL) { return NULL; }
+    copy->type = item->type & (~cJSON_IsReference);
+    if (!recurse) { return copy; }
+    for (child = item->child; child != NULL; child = child->next)
+    {
+        cJSON *c2 = bad_TAB24_dup(child, depth + 1, 1);
+        if (c2 == NULL) { cJSON_Delete(copy); return NULL; }
+        if (tail == NULL) { copy->child = c2; } else { tail->next = c2; c2->prev = tail; }
+        tail = c2;
+    }
+    if (copy->child != NULL) { copy->child->prev = tail; }
+    return copy;
+}
+cJSON *good_dup_bound(const cJSON *item, size_t depth, cJSON_bool recurse)
+{
+    cJSON *copy = NULL; const cJSON *child = NULL; cJSON *tail = NULL;
+    if ((item == NULL) || (depth > FX_LIMIT)) { return NULL; }
+    copy = cJSON_New_Item(&global_hooks);
+    if (copy == NULL) { return NULL; }
+    copy->type = item->type & (~cJSON_IsReference);
+    if (!recurse) { return copy; }
+    for (child = item->child; child != NULL; child = child->next)
+    {
+        cJSON *c2 = good_dup_bound(child, depth + 1, 1);
+        if (c2 == NULL) { cJSON_Delete(copy); return NULL; }
+        if (tail == NULL) { copy->child = c2; } else { tail->next = c2; c2->prev = tail; }
+        tail = c2;
+    }
+    if (copy->child != NULL) { copy->child->prev = tail; }
+    return copy;
+}
+
 /* SHP4: a duplicator that leaves the text of raw nodes out; and one that copies every kind */
 static unsigned char *fx_strdup(const unsigned char *s) { size_t n = strlen((const char*)s) + 1; unsigned char *c = (unsigned char*)global_hooks.allocate(n); if (c) { memcpy(c, s, n); } return c; }
 #define FX_DUP(NAME, TEXT_OF) \
